@@ -23,7 +23,7 @@ LEVEL_TEXT = 'seeded exploration of pattern x name-set; set equality between rem
 LEVEL_NOTE = 'trusted: model/glob.py (backtracking matcher written from the fnmatch documentation), model/bag.py'
 
 NAMES = ['notes', 'notes.trashinfo', 'x.trashinfo.trashinfo', '.trashinfo', 'foo', 'Foo', 'FOO', 'foobar', 'fo', 'f', 'bar', 'a*b', 'a?b', '[x]', 'a[b', 'x]y', 'a-b', '!bang', 'file.txt',
-         'file.TXT', 'file.txt.bak', '.hidden', 'with space', 'new\nline', 'a', 'b', 'ab', 'abc', 'é', '*', '?', '-', 'a!b']
+         'file.TXT', 'file.txt.bak', '.hidden', 'with space', 'new\nline', 'a', 'b', 'ab', 'abc', 'é', '*', '?', '-', 'a!b', '~', '~root']
 
 
 def shape(p):
@@ -53,6 +53,10 @@ def gen_pattern(rng, names, home):
     if r < 0.7:
         c = nm[0] if nm[0] not in '[]!-^' else 'f'
         return rng.choice(['[%s]*' % c, '[!%s]*' % c, '[a-f]*', '[A-Z]*', '[!a-z]*', '[fF]oo', '[[]*', '*[]]*', '[a-]*', '[]x]*'])
+    if r < 0.74:
+        # a pattern is not a shell word: a leading tilde is a literal character (a directory literally called '~' is the classic
+        # accident of a quoted "~/build" in a script)
+        return rng.choice(['~', '~', '~/*', '~/w/*', '~/w/' + nm.replace('[', '?'), '~root', '~*', '~/w/sub/*', '[~]', '~?oot'])
     if r < 0.85:
         return rng.choice([home + '/w/' + nm.replace('[', '?'), home + '/*', '/*', '/*/' + nm.replace('[', '?'), '/media/*', '/media/v1/docs/*',
                            '/*foo', home + '/w/sub/*', '/home/u/w/[fF]*', '/*/*/*/*'])
